@@ -125,7 +125,7 @@ MANIFEST_TEXT = {
         {"name": "C", "path": "sim/heapsim.py, sim/inject.py, sim/snapshot.py", "serves_properties": ["C14"],
          "kind_free_text": "shared-heap crash-point simulator: seeded call histories over caller-owned buffers, arguments, readers and Dask-backed objects; exception injection at every line event (thorough: also instruction events) of pulsarbat code via sys.monitoring, OSError at every I/O seam call for reader steps, compute under Engine A; byte-exact snapshot oracle with an alias-group reference model for sanctioned in-place writes"},
     ],
-    "notes": "Technique family: deterministic simulation with fault injection. One integer (VERIF_SEED + run index) seeds a choice tape that decides every generated object, operation, schedule and fault; every process runs under PYTHONHASHSEED=0; a violation is minimised by tape shrinking, written to replays/, and confirmed in a fresh interpreter before it is reported. Exit 2 + HARNESS-ERROR is never a verdict. Six genuine defects of the pinned tree were found and repaired in /repo (six 'fix:' commits); two are listed as known findings (dask.array.fft shape rule for irfft2/irfftn on a length-1 axis; baseband.open not thread-safe under concurrent reads without lock=): known_findings.json. Seventeen properties are pure functions of their arguments and are listed as not applicable (DESIGN.md section 6). ./selftest determinism and ./selftest sensitivity (17 hand-made mutants, 61 changes seeded by blind sub-agents) are the self-tests; DESIGN.md section 10 records what was missed on first contact and how it was closed.",
+    "notes": "Technique family: deterministic simulation with fault injection. One integer (VERIF_SEED + run index) seeds a choice tape that decides every generated object, operation, schedule and fault; every process runs under PYTHONHASHSEED=0; a violation is minimised by tape shrinking, written to replays/, and confirmed in a fresh interpreter before it is reported. Exit 2 + HARNESS-ERROR is never a verdict. Six genuine defects of the pinned tree were found and repaired in /repo (six 'fix:' commits); two are listed as known findings (dask.array.fft shape rule for irfft2/irfftn on a length-1 axis; baseband.open not thread-safe under concurrent reads without lock=): known_findings.json. Seventeen properties are pure functions of their arguments and are listed as not applicable (DESIGN.md section 6). ./selftest determinism and ./selftest sensitivity (17 hand-made mutants, 67 changes seeded by blind sub-agents) are the self-tests; DESIGN.md section 10 records what was missed on first contact and how it was closed.",
 }
 
 
